@@ -21,6 +21,7 @@ prefix of its input (`once_shape`, `dec_once_shape`); everything else it does (`
 -/
 import Woodpile.Proofs.EncWorldComp
 import Woodpile.Proofs.IovecAnch
+import Woodpile.Props.C01
 
 namespace Woodpile.EncWorld
 open Woodpile.Hcobs Woodpile.Iovec Woodpile.Arena
@@ -626,6 +627,96 @@ theorem enc_lag_structA (p : Params) (hp : p.Valid) (pol : Policy) (tun : Tuning
   · cases hf : σ.first
     · right; rw [hmax, hM, hf]; rfl
     · left; rw [hmax, hM, hf]; rfl
+
+/-! ### The structural prefix property -/
+
+theorem go_prefix (p : Params) (Y : List (Method × List UInt8)) :
+    ∀ (s : EncState) (nid : Nat) (acc : List Emit), ∃ t, Enc.runPieces.go p Y s nid acc = acc ++ t := by
+  induction Y with
+  | nil => intro s nid acc; exact ⟨Enc.finish p s, rfl⟩
+  | cons x t ih =>
+    intro s nid acc
+    obtain ⟨m, d⟩ := x
+    obtain ⟨t', ht'⟩ := ih (Enc.feedAll p s nid m d).1 (Enc.feedAll p s nid m d).2.1 (acc ++ (Enc.feedAll p s nid m d).2.2)
+    refine ⟨(Enc.feedAll p s nid m d).2.2 ++ t', ?_⟩
+    have e : Enc.runPieces.go p ((m, d) :: t) s nid acc =
+        Enc.runPieces.go p t (Enc.feedAll p s nid m d).1 (Enc.feedAll p s nid m d).2.1
+          (acc ++ (Enc.feedAll p s nid m d).2.2) := rfl
+    rw [e, ht', List.append_assoc]
+
+theorem apieces_feeds (X : List (Method × List UInt8)) :
+    apieces (X.map fun x => ACall.call (Call.feed x.1 x.2)) = X := by
+  induction X with
+  | nil => rfl
+  | cons x t ih => simp [apieces, pieces, ih]
+
+theorem apieces_append (x y : List ACall) : apieces (x ++ y) = apieces x ++ apieces y := by
+  induction x with
+  | nil => rfl
+  | cons c t ih => cases c <;> simp [apieces, ih]
+
+theorem ainputOf_append (x y : List ACall) : ainputOf (x ++ y) = ainputOf x ++ ainputOf y := by
+  simp [ainputOf, apieces_append]
+
+/-- `encCallsA_sim` with the emit list of the calls as a prefix of the emit list of any continuation. -/
+theorem encCallsA_go (p : Params) (hp : p.Valid) (i : Nat) (calls : List ACall) :
+    ∀ (r : Run) (input : List UInt8) (acc : List Emit), RunInv p i r input acc →
+    ∃ r' acc', encCallsA p i r calls = some r' ∧ RunInv p i r' (input ++ ainputOf calls) acc' ∧
+      ∀ Y, Enc.runPieces.go p (apieces calls ++ Y) r.e.st r.e.nid acc = Enc.runPieces.go p Y r'.e.st r'.e.nid acc' := by
+  induction calls with
+  | nil =>
+    intro r input acc h
+    exact ⟨r, acc, rfl, by simpa [ainputOf, apieces] using h, fun Y => rfl⟩
+  | cons c t ih =>
+    intro r input acc h
+    obtain ⟨r1, acc1, h1, h2, h3⟩ := encCallA_sim p hp i r c input acc h
+    obtain ⟨r2, acc2, k1, k2, k3⟩ := ih r1 _ acc1 h2
+    refine ⟨r2, acc2, by simp [encCallsA, h1, k1], ?_, ?_⟩
+    · rw [ainputOf_cons, ← List.append_assoc]; exact k2
+    · intro Y
+      have e1 := h3 (t ++ Y.map fun x => ACall.call (Call.feed x.1 x.2))
+      have e2 : apieces (c :: (t ++ Y.map fun x => ACall.call (Call.feed x.1 x.2))) = apieces (c :: t) ++ Y := by
+        rw [show c :: (t ++ Y.map fun x => ACall.call (Call.feed x.1 x.2)) =
+          (c :: t) ++ Y.map fun x => ACall.call (Call.feed x.1 x.2) from rfl, apieces_append, apieces_feeds]
+      rw [e2, apieces_append, apieces_feeds] at e1
+      rw [e1]; exact k3 Y
+
+/-- C09's prefix clause on the structural iovec: between the calls of any run (all input methods), the
+bytes drained so far followed by the bytes of the stable prefix of the iovec (whole slices before the
+slice of the earliest pending backref) are a prefix of the FINAL output `Spec.encode` of the whole input,
+whatever calls follow. -/
+theorem enc_prefix_struct (p : Params) (hp : p.Valid) (pol : Policy) (tun : Tuning) (c1 c2 : List ACall) :
+    ∃ r v, encPrefixA p pol tun c1 = some r ∧ r.w.iov 0 = some v ∧ IovInv r.w v ∧
+      r.drained ++ r.w.visible v <+: Spec.encode p (ainputOf (c1 ++ c2)) := by
+  obtain ⟨w1, e1, h1, h2, h3, h4⟩ := encInit_sim p pol tun
+  obtain ⟨r, acc, k1, k2, k3⟩ := encCallsA_go p hp 0 c1 ⟨w1, e1, []⟩ [] _ h2
+  obtain ⟨v, q, evs, hv, hsim, hq, hev, _⟩ := k2
+  refine ⟨r, v, by simp only [encPrefixA, h1, k1], hv, hsim.inv, ?_⟩
+  -- the visible bytes are stable bytes of the pipe
+  have hvis : r.w.visible v <+: q.stable := by
+    have hc := absCells_visible hsim.inv
+    rw [hsim.cells] at hc
+    have := Pipe.stable_of_cells ⟨q.cells.map (renameCell (tokKey r.e.toks)), [], 0⟩ (r.w.visible v) _ hc
+    simp only [Pipe.stable] at this
+    rw [stable_rename] at this
+    exact ⟨_, this.symm⟩
+  -- the emits so far are a prefix of the emits of the whole run
+  have hgo := k3 (apieces c2)
+  simp only at hgo
+  rw [h3, h4] at hgo
+  obtain ⟨t, ht⟩ := go_prefix p (apieces c2) r.e.st r.e.nid acc
+  have hrun : Enc.runPieces p (apieces (c1 ++ c2)) = acc ++ t := by
+    rw [apieces_append]
+    exact hgo.trans ht
+  have hpre := Woodpile.Pipe.drain_prefix Pipe.empty evs ((t.map (·.op)).map Ev.prod)
+  rw [Woodpile.Pipe.total_empty, Woodpile.Pipe.prodOps_append, prodOps_prods, hev, ← List.map_append, ← hrun, ← hq] at hpre
+  have hspec := (Woodpile.Props.C01.enc_impl_refines_spec p hp (apieces (c1 ++ c2))).1
+  unfold Enc.output at hspec
+  rw [hspec] at hpre
+  rw [hsim.ghost]
+  refine List.IsPrefix.trans ?_ hpre
+  obtain ⟨x, hx⟩ := hvis
+  exact ⟨x, by rw [← hx, List.append_assoc]⟩
 
 /-! ### The decoder -/
 
